@@ -215,6 +215,9 @@ def run(prog, rep):
         # tainted serialiser straight on the handle
         for e in ff.ev("entry_write", "block_write"):
             recv = e.entry if e.kind == "entry_write" else e.obj
+            if getattr(e, "buffered", False):
+                rep.ok("no-tainted-serialiser-on-handle", f"{fq}: `{norm(recv)}` was serialised into a scratch buffer; only the finished bytes reach the handle", nontrivial=True)
+                continue
             if isinstance(recv, ast.Name) and recv.id in taint:
                 cls = "TdfEntry" if e.kind == "entry_write" else None
                 if cls is None or cls in late:
